@@ -15,8 +15,29 @@ pub struct C15;
 /// Walk `shape` and `tree` in parallel to a random scalar leaf and replace the leaf's shape by one
 /// that cannot accept the value. Returns the key path (table keys only), the candidate span ids of
 /// the offending value (see c14::expected_spans) and whether an enum variant key lies on the path.
-fn plant(rng: &mut Rng, shape: &mut Shape, tree: &RVal, keys: &mut Vec<String>, ids: &mut Vec<String>, saw_variant: &mut bool) -> bool {
+fn plant(rng: &mut Rng, shape: &mut Shape, tree: &RVal, keys: &mut Vec<String>, ids: &mut Vec<String>, saw_variant: &mut bool, spans: &crate::c14::Expected, want: &mut Option<(usize, usize)>) -> bool {
     use crate::c14::{join, SEP};
+    // now and then the offending value is a whole container: an array, an inline table, a table
+    // with a header of its own, an array of tables (first header .. end of the last element)
+    if !keys.is_empty() && matches!(tree, RVal::Table(_) | RVal::Array(_)) && !matches!(shape, Shape::Opt(_) | Shape::Newtype(..)) && rng.chance(1, 6) {
+        let n = if let RVal::Array(a) = tree { a.len() } else { 0 };
+        let found = ids.iter().find_map(|c| {
+            if let Some(sp) = spans.value_span.get(c).or_else(|| spans.table_span.get(c)) {
+                return Some(*sp);
+            }
+            if n > 0 {
+                let first = spans.table_span.get(&format!("{c}{SEP}#0"))?;
+                let last = spans.table_span.get(&format!("{c}{SEP}#{}", n - 1))?;
+                return Some((first.0, last.1));
+            }
+            None
+        });
+        if let Some(sp) = found {
+            *want = Some(sp);
+            *shape = Shape::I64;
+            return true;
+        }
+    }
     let push_ids = |ids: &mut Vec<String>, f: &dyn Fn(&str) -> Vec<String>| {
         let mut out = Vec::new();
         for i in ids.iter() {
@@ -25,8 +46,8 @@ fn plant(rng: &mut Rng, shape: &mut Shape, tree: &RVal, keys: &mut Vec<String>, 
         *ids = out;
     };
     match (shape, tree) {
-        (Shape::Opt(inner), t) => plant(rng, inner, t, keys, ids, saw_variant),
-        (Shape::Newtype(_, inner), t) => plant(rng, inner, t, keys, ids, saw_variant),
+        (Shape::Opt(inner), t) => plant(rng, inner, t, keys, ids, saw_variant, spans, want),
+        (Shape::Newtype(_, inner), t) => plant(rng, inner, t, keys, ids, saw_variant, spans, want),
         (Shape::Struct(_, fields), RVal::Table(t)) => {
             let present: Vec<usize> = (0..fields.len()).filter(|i| t.get(fields[*i].0).is_some()).collect();
             if present.is_empty() {
@@ -36,7 +57,7 @@ fn plant(rng: &mut Rng, shape: &mut Shape, tree: &RVal, keys: &mut Vec<String>, 
             let name = fields[i].0;
             keys.push(name.to_string());
             push_ids(ids, &|b| vec![join(b, name)]);
-            plant(rng, &mut fields[i].1, t.get(name).unwrap(), keys, ids, saw_variant)
+            plant(rng, &mut fields[i].1, t.get(name).unwrap(), keys, ids, saw_variant, spans, want)
         }
         (Shape::Map(_, inner), RVal::Table(t)) => {
             if t.entries.is_empty() {
@@ -48,7 +69,7 @@ fn plant(rng: &mut Rng, shape: &mut Shape, tree: &RVal, keys: &mut Vec<String>, 
             push_ids(ids, &|b| vec![join(b, k)]);
             // changing the shared shape makes the first entry (in the deserializer's order) fail
             let mut probe = (**inner).clone();
-            if !plant(rng, &mut probe, v, keys, ids, saw_variant) {
+            if !plant(rng, &mut probe, v, keys, ids, saw_variant, spans, want) {
                 return false;
             }
             // only safe when there is one entry (otherwise another entry may be visited first)
@@ -69,7 +90,7 @@ fn plant(rng: &mut Rng, shape: &mut Shape, tree: &RVal, keys: &mut Vec<String>, 
                         *saw_variant = true;
                         keys.push(k.clone());
                         push_ids(ids, &|b| vec![join(b, k)]);
-                        return plant(rng, inner, v, keys, ids, saw_variant);
+                        return plant(rng, inner, v, keys, ids, saw_variant, spans, want);
                     }
                 }
             }
@@ -80,7 +101,7 @@ fn plant(rng: &mut Rng, shape: &mut Shape, tree: &RVal, keys: &mut Vec<String>, 
                 return false;
             }
             push_ids(ids, &|b| vec![format!("{b}{SEP}[0]"), format!("{b}{SEP}#0")]);
-            plant(rng, inner, &a[0], keys, ids, saw_variant)
+            plant(rng, inner, &a[0], keys, ids, saw_variant, spans, want)
         }
         (Shape::Tuple(ss), RVal::Array(a)) | (Shape::TupleStruct(_, ss), RVal::Array(a)) => {
             if ss.is_empty() || ss.len() != a.len() {
@@ -88,7 +109,7 @@ fn plant(rng: &mut Rng, shape: &mut Shape, tree: &RVal, keys: &mut Vec<String>, 
             }
             let i = rng.below(ss.len());
             push_ids(ids, &|b| vec![format!("{b}{SEP}[{i}]"), format!("{b}{SEP}#{i}")]);
-            plant(rng, &mut ss[i], &a[i], keys, ids, saw_variant)
+            plant(rng, &mut ss[i], &a[i], keys, ids, saw_variant, spans, want)
         }
         (leaf, value) => {
             let wrong = match value {
@@ -326,17 +347,21 @@ impl C15 {
         let mut keys = Vec::new();
         let mut ids = vec![String::new()];
         let mut saw_variant = false;
-        if !plant(rng, &mut shape, tree, &mut keys, &mut ids, &mut saw_variant) {
+        let spans = crate::c14::expected_spans(&d);
+        let mut container_span = None;
+        if !plant(rng, &mut shape, tree, &mut keys, &mut ids, &mut saw_variant, &spans, &mut container_span) {
             ctx.count("mismatch/not-plantable");
             return;
+        }
+        if container_span.is_some() {
+            ctx.count("mismatch/offending-value-is-a-container");
         }
         // the target may itself be optional (`Option<Config>`): one more way into the deserializer
         if rng.chance(1, 4) {
             shape = Shape::Opt(Box::new(shape));
             ctx.count("mismatch/optional-root");
         }
-        let spans = crate::c14::expected_spans(&d);
-        let want_span: Option<(usize, usize)> = ids.iter().find_map(|i| spans.value_span.get(i).copied());
+        let want_span: Option<(usize, usize)> = container_span.or_else(|| ids.iter().find_map(|i| spans.value_span.get(i).copied()));
         let r = guarded(|| {
             let from_text = (&shape).deserialize(toml::de::Deserializer::new(&text)).map(|_| ()).map_err(|e| (e.message().to_string(), e.span(), e.to_string()));
             let from_edit = toml_edit::de::Deserializer::from_str(&text)
@@ -345,9 +370,27 @@ impl C15 {
             let from_doc = toml_edit::DocumentMut::from_str(&text)
                 .map_err(|e| (e.message().to_string(), e.span(), e.to_string()))
                 .and_then(|doc| (&shape).deserialize(toml_edit::de::Deserializer::from(doc)).map(|_| ()).map_err(|e| (e.message().to_string(), e.span(), e.to_string())));
-            (from_text, from_edit, from_doc)
+            // every other door that still has the source text behind it
+            let view = |e: toml_edit::de::Error| (e.message().to_string(), e.span(), e.to_string());
+            let view_syntax = |e: toml_edit::TomlError| (e.message().to_string(), e.span(), e.to_string());
+            let mut more: Vec<(&'static str, Result<(), (String, Option<std::ops::Range<usize>>, String)>)> = Vec::new();
+            more.push(("str::parse::<toml_edit::de::Deserializer>", text.parse::<toml_edit::de::Deserializer>().map_err(view).and_then(|de| (&shape).deserialize(de).map(|_| ()).map_err(view))));
+            more.push(("toml_edit::de::Deserializer::parse", toml_edit::de::Deserializer::parse(&text).map_err(view).and_then(|de| (&shape).deserialize(de).map(|_| ()).map_err(view))));
+            more.push((
+                "Deserializer::from(ImDocument<String>)",
+                toml_edit::ImDocument::parse(text.clone()).map_err(view_syntax).and_then(|im| (&shape).deserialize(toml_edit::de::Deserializer::from(im)).map(|_| ()).map_err(view)),
+            ));
+            more.push((
+                "ImDocument<String>::into_deserializer",
+                toml_edit::ImDocument::parse(text.clone()).map_err(view_syntax).and_then(|im| (&shape).deserialize(serde::de::IntoDeserializer::into_deserializer(im)).map(|_| ()).map_err(view)),
+            ));
+            more.push((
+                "ImDocument<&str> -> Deserializer",
+                toml_edit::ImDocument::parse(text.as_str()).map_err(view_syntax).and_then(|im| (&shape).deserialize(toml_edit::de::Deserializer::from(im)).map(|_| ()).map_err(view)),
+            ));
+            (from_text, from_edit, from_doc, more)
         });
-        let (from_text, from_edit, from_doc) = match r {
+        let (from_text, from_edit, from_doc, more) = match r {
             Ok(x) => x,
             Err((loc, msg)) => {
                 ctx.violation(&format!("panic:{}", crate::short_loc(&loc)), format!("decoding into a mismatching type panicked at {loc}: {msg}"));
@@ -359,7 +402,9 @@ impl C15 {
         if saw_variant {
             ctx.count("mismatch/through-enum-variant");
         }
-        for (route, res) in [("toml::de::Deserializer", &from_text), ("toml_edit::de::Deserializer::from_str", &from_edit)] {
+        let mut text_routes = vec![("toml::de::Deserializer", &from_text), ("toml_edit::de::Deserializer::from_str", &from_edit)];
+        text_routes.extend(more.iter().map(|(n, r)| (*n, r)));
+        for (route, res) in text_routes {
             match res {
                 Ok(()) => ctx.violation("mismatch-accepted", format!("{route}: decoding succeeded although the value at `{}` cannot be a {:?}", keys.join("."), "planted type")),
                 Err((msg, span, rendered)) => {
